@@ -10,6 +10,8 @@ mod c16;
 mod c02;
 mod c03;
 mod c04;
+mod c04x;
+mod c04y;
 mod c10;
 mod c14;
 mod c14_glue;
